@@ -169,8 +169,10 @@ def run(ctx):
     oke = bool(ec) and len({s_["path"] for s_ in ents if paths.always_before(bi, ec[0], lambda e, s_=s_: e == s_["node"] or e == bi.parent.get(s_["node"]) if isinstance(bi.parent, dict) else e == s_["node"])}) >= 1
     ctx.check(j8, oke, key(bi, "reset:entry-exit"), bi.where(ec[0]) if ec else bi.where(bi.root), "rule->entry / rule->exit are not reset before the rule is expanded")
     # the pushed rule is the one expanded; the stack scan compares with the looked-up subrule
-    scan = [c for (s0, d0, c, pol) in er.cfg.cond_edges() if pol and "subnode->data.ptr" in er.canon(c, subst=False)]
-    cmp_ = [c for c in scan if paths.rel(er, c, True, subst=False) in (("subnode->data.ptr", "==", "subrule"), ("subrule", "==", "subnode->data.ptr"))]
+    # the variable that walks the rule stack, whatever it is called
+    scanv = sorted(set(s_["path"] for s_ in paths.stores(er) if s_["kind"] == "DeclRef" and s_["rhs"] is not None and er.canon(s_["rhs"], subst=False) == "grammar->rulestack")) or ["subnode"]
+    scan = [c for (s0, d0, c, pol) in er.cfg.cond_edges() if pol and any(v_ + "->data.ptr" in er.canon(c, subst=False) for v_ in scanv)]
+    cmp_ = [c for c in scan if any(paths.rel(er, c, True, subst=False) in ((v_ + "->data.ptr", "==", "subrule"), ("subrule", "==", v_ + "->data.ptr")) for v_ in scanv)]
     ctx.check(j2, len(cmp_) == 1, key(er, "stack-scan"), er.where(er.root), "stack scan does not compare entries with the referenced rule")
 
     # ---- J3 weights ----------------------------------------------------------------------------------
@@ -216,7 +218,7 @@ def run(ctx):
     clears = [s_ for s_ in flag if s_["rhs"] is not None and er.constval(s_["rhs"]) == 0]
     # a flag declared with its cleared value (`int embedded = FALSE;`) is cleared there
     clears += [{"node": v_, "rhs": er.ch(v_)[0]} for v_ in er.find("Var") if er.nodes[v_]["name"] == "embedded" and er.ch(v_) and er.k(er.ch(v_)[0]) != "Absent" and er.constval(er.ch(v_)[0]) == 0]
-    okf = len(sets) == 1 and len(clears) == 1 and paths.guarded(er, sets[0]["node"], lambda fn, cc, pol: paths.cond_atoms(fn, cc, pol, subst=False) == ("subnode->data.ptr", False)) \
+    okf = len(sets) == 1 and len(clears) == 1 and paths.guarded(er, sets[0]["node"], lambda fn, cc, pol: paths.cond_atoms(fn, cc, pol, subst=False) in [(v_ + "->data.ptr", False) for v_ in scanv]) \
         and all(paths.always_before(er, c, lambda e: e == clears[0]["node"] or (er.k(e) == "Decl" and clears[0]["node"] in er.ch(e))) for c in cmp_)
     ctx.check(j5, okf, key(er, "mark-seen"), er.where(er.root), "the stack scan does not record whether it passed a mark (flag cleared before the scan, set on a NULL entry)")
     for r in rec_ret:
@@ -229,7 +231,7 @@ def run(ctx):
     sub = [s for s in paths.stores(er) if s["path"] == "subrule"]
     ctx.check(j5, len(sub) == 1 and er.canon(sub[0]["rhs"], subst=False) == "val", key(er, "subrule"), er.where(er.root), "the referenced rule is not the one looked up by name")
     fwd = [c for c in links if not paths.guarded(er, c, on_stack)]
-    forms = sorted(tuple(er.canon(x, subst=False) for x in er.args(c)) for c in fwd)
+    forms = sorted(tuple(er.canon(x, subst=False) for x in er.args(c)[:3]) + (er.canon(er.args(c)[3]).replace("val->entry", "subrule->entry"),) for c in fwd)     # the target may sit in a temporary (subrule is val)
     want = sorted([("grammar", "atom", "lastnode", "grammar->nstate"), ("grammar", "atom", "lastnode", "grammar->nstate"), ("grammar", "atom", "lastnode", "subrule->entry")])
     ctx.check(j5, forms == want, key(er, "links"), er.where(er.root), "sequence links are %s" % forms)
     # every link starts where the sequence stands, and the sequence then stands at the link's end: a fresh
